@@ -31,6 +31,20 @@ def policy(extra_effects=(), extra_stubs=None, no_inline=()):
 _cache = {}
 
 
+def name_section_emitter(F):
+    """path of the function that builds the name section (found by what it does, not by what it is called)"""
+    from cfg import callee_name
+    from heval import norm_path
+    for p, b in F.mir.items():
+        if '{closure' in p:
+            continue
+        for blk in b['blocks']:
+            t = blk['term']
+            if t.get('t') == 'Call' and norm_path(callee_name(t) or '').endswith('wasm_encoder::NameSection::new'):
+                return p
+    return None
+
+
 def worlds_of(F, fn_suffix, args, pol=None, key=None):
     """evaluate the unique fn whose path ends with fn_suffix"""
     ck = (id(F), fn_suffix, key)
